@@ -56,6 +56,8 @@ def configs(tier, seed):
     # (address widths worked out by hand from the documented layout, not asked from the library)
     for p, dw, aw in ((13, 24, 3), (25, 24, 4), (21, 40, 3)):
         out.append({"pins": p, "dw": dw, "aw": aw, "stages": 1, "base": True})
+    # more than 32 pins (masks and strobes collected in 32-bit intermediates lose the upper pins)
+    out.append({"pins": 40, "dw": 16, "aw": _min_aw(40, 16), "stages": 1, "base": True})
     return out
 
 
